@@ -81,9 +81,11 @@ impl Codec {
 }
 
 /// True when, reading `b` sequentially as definite-length CBOR, the first structural problem met
-/// is an array/map header whose declared count exceeds the number of remaining input bytes (every
+/// is an array/map header whose declared count exceeds both 65535 and the number of remaining input bytes (every
 /// element needs ≥ 1 byte, so such an input is never a valid encoding).  `skip` = bytes of
 /// non-CBOR prefix (EINT header).
+pub const UNSAFE_COUNT: u64 = 0xffff;
+
 pub fn cbor_count_exceeds_input(b: &[u8]) -> bool {
     let mut pos = 0usize;
     // number of items still expected at each open level
@@ -126,17 +128,13 @@ pub fn cbor_count_exceeds_input(b: &[u8]) -> bool {
                 }
                 pos += arg as usize;
             }
-            4 => {
+            4 | 5 => {
                 if arg > remaining {
-                    return true;
+                    // small counts are harmless in-process (≤ 2 MiB pre-allocation): let the real
+                    // decoder see them so the byte sweep stays complete
+                    return arg > UNSAFE_COUNT;
                 }
-                pending.push(arg);
-            }
-            5 => {
-                if arg > remaining {
-                    return true;
-                }
-                pending.push(arg.saturating_mul(2));
+                pending.push(if major == 5 { arg.saturating_mul(2) } else { arg });
             }
             _ => return false,
         }
@@ -257,7 +255,7 @@ pub fn table() -> Vec<Codec> {
 /// Encodings that have a reader but no writer in the repository (legacy forms): the byte strings
 /// themselves plus the `Debug` of the value they must decode to.  `(codec name, label, bytes, repr)`.
 pub fn legacy_encodings() -> Vec<(&'static str, String, Vec<u8>, String)> {
-    warp::ingress_v1_samples().into_iter().map(|(l, b, e)| ("ingress-retention", l, b, format!("{e:?}"))).collect()
+    warp::ingress_v1_samples().into_iter().map(|(l, b, e)| ("ingress-retention", l, b, format!("{:?}", (warp::IngressForm::LegacyV1, e)))).collect()
 }
 
 /// Encode/decode pairs found by grep that are NOT in the table, with the reason.
